@@ -29,6 +29,8 @@ func init() {
 		spaces[p+".json.pos"] = func(t string) mck.Space { return jsonPosSpace(v9) }
 		spaces[p+".json.pairs"] = func(t string) mck.Space { return jsonPairSpace(v9) }
 		spaces[p+".json.shape"] = func(t string) mck.Space { return jsonShapeSpace(v9) }
+		spaces[p+".json.triples"] = func(t string) mck.Space { return jsonTripleSpace(v9) }
+		spaces[p+".json.mixed"] = func(t string) mck.Space { return jsonMixedSpace(v9) }
 	}
 }
 
@@ -499,4 +501,119 @@ func jsonShapeSpace(v9 bool) mck.Space {
 		}
 		runJSONCase(c, &jsonCase{v9: v9, addr: jsonAddrs[d[3]], tpl: t, recs: recs, nsets: d[0] + 1, desc: fmt.Sprintf("%d sets x %d records x %d fields", d[0]+1, d[1]+1, d[2]+1)})
 	}}
+}
+
+// every ordered triple of values from a reduced alphabet (one value per class) in one record (thorough)
+func jsonTripleSpace(v9 bool) mck.Space {
+	all := jsonValues(v9)
+	var vals []jval
+	seen := map[string]int{}
+	for _, v := range all {
+		cls := strings.SplitN(v.name, ":", 2)[0]
+		if seen[cls] < 3 {
+			seen[cls]++
+			vals = append(vals, v)
+		}
+	}
+	n := uint64(len(vals))
+	dims := mck.Radix{n, n, n}
+	return mck.FuncSpace{N: dims.Size(), F: func(idx uint64, c *mck.Ctx) {
+		d := dims.Digits(idx)
+		a, b, cc := vals[d[0]], vals[d[1]], vals[d[2]]
+		t := ref.Template{ID: 301, Fields: []ref.Field{a.k.F, b.k.F, cc.k.F}}
+		if t.MinRecordLen() == 0 {
+			c.Skip()
+			return
+		}
+		rec := ref.Record{{Raw: a.raw}, {Raw: b.raw}, {Raw: cc.raw}}
+		runJSONCase(c, &jsonCase{v9: v9, addr: jsonAddrs[idx%4], tpl: t, recs: []ref.Record{rec}, nsets: 1, desc: fmt.Sprintf("triple %s , %s , %s", a.name, b.name, cc.name), tag: "triple"})
+	}}
+}
+
+// jsonMixedSpace: one message carrying data sets of TWO templates with different numbers of fields
+// (1..3 each), in the orders AB, BA, ABA, BAB, with 1..2 records per set; values from a small
+// encoder-directed alphabet. The encoder's separators must not depend on the first record's shape.
+func jsonMixedSpace(v9 bool) mck.Space {
+	all := jsonValues(v9)
+	var vals []jval
+	seen := map[string]bool{}
+	for _, v := range all {
+		cls := strings.SplitN(v.name, ":", 2)[0]
+		if !seen[cls] && len(v.raw) > 0 && v.k.F.Len != 65535 {
+			seen[cls] = true
+			vals = append(vals, v)
+		}
+	}
+	nv := uint64(len(vals))
+	dims := mck.Radix{3, 3, 4, 2, 2, nv}
+	return mck.FuncSpace{N: dims.Size(), F: func(idx uint64, c *mck.Ctx) {
+		d := dims.Digits(idx)
+		na, nb := d[0]+1, d[1]+1
+		mk := func(id uint16, n int, off int) (ref.Template, ref.Record) {
+			t := ref.Template{ID: id}
+			var rec ref.Record
+			for i := 0; i < n; i++ {
+				v := vals[(d[5]+i+off)%len(vals)]
+				t.Fields = append(t.Fields, v.k.F)
+				rec = append(rec, ref.Value{Raw: v.raw})
+			}
+			return t, rec
+		}
+		ta, ra := mk(300, na, 0)
+		tb, rb := mk(301, nb, 5)
+		recs := func(r ref.Record, n int) []ref.Record {
+			var out []ref.Record
+			for i := 0; i <= n; i++ {
+				out = append(out, r)
+			}
+			return out
+		}
+		sa := ref.Set{Kind: ref.SetData, TemplateID: 300, Records: recs(ra, d[3])}
+		sb := ref.Set{Kind: ref.SetData, TemplateID: 301, Records: recs(rb, d[4])}
+		order := [][]ref.Set{{sa, sb}, {sb, sa}, {sa, sb, sa}, {sb, sa, sb}}[d[2]]
+		tpls := map[uint16]ref.Template{300: ta, 301: tb}
+		sets := append([]ref.Set{{Kind: ref.SetTemplates, Templates: []ref.Template{ta, tb}}}, order...)
+		m := &ref.Msg{V9: v9, Hdr: hdrFor(v9, 3), Sets: sets}
+		runJSONMsg(c, v9, m, tpls, fmt.Sprintf("mixed templates: A has %d fields, B has %d, order %d", na, nb, d[2]), "mixed")
+	}}
+}
+
+// runJSONMsg: like runJSONCase for an arbitrary message.
+func runJSONMsg(c *mck.Ctx, v9 bool, m *ref.Msg, tpls map[uint16]ref.Template, what, tag string) {
+	addr := jsonAddrs[0]
+	wire := m.Encode(tpls)
+	want := m.Expected(tpls)
+	desc := func() interface{} {
+		return map[string]interface{}{"desc": what, "v9": v9, "wire": hex.EncodeToString(wire), "expected": flowh.DescribeRecords(want)}
+	}
+	c.SetCase(desc)
+	c.Nontrivial(mck.Hash64(wire))
+	d := flowh.Decode(v9, addr, append([]byte{}, wire...), flowh.NewCaches())
+	sig := "ipfix:json:" + tag + ":"
+	if v9 {
+		sig = "v9:json:" + tag + ":"
+	}
+	if d.Nil || d.Err != nil {
+		c.Violation(sig+"decode-failed", fmt.Sprint(d.Err), desc())
+		return
+	}
+	var out []byte
+	var err error
+	if d.IPFIX != nil {
+		out, err = d.IPFIX.JSONMarshal(new(bytes.Buffer))
+	} else {
+		out, err = d.V9.JSONMarshal(new(bytes.Buffer))
+	}
+	if err != nil {
+		c.Violation(sig+"marshal-error", err.Error(), desc())
+		return
+	}
+	if cls, msg := checkFlowJSON(v9, out, addr.String(), d.Hdr, want); cls != "" {
+		dd := desc().(map[string]interface{})
+		dd["json"] = string(out)
+		c.Violation(sig+cls, msg, dd)
+		return
+	}
+	c.Outcome("ok")
+	c.Sample(func() interface{} { dd := desc().(map[string]interface{}); dd["json"] = string(out); return dd })
 }
